@@ -4,7 +4,8 @@ import os
 from jv import hooks, objd, real, refline, stream
 
 LEVEL = "exploration"
-RULE = ("The C08 workload (random / biased code in ELF64 and ELF32 objects through the real objdump, plus tests/assembly) "
+RULE = ("The C08 workload (random / biased code in ELF64 and ELF32 objects through the real objdump, plus tests/assembly, plus batches "
+        "assembled from templates that always contain prefixed instructions and AVX-512 operands with glued {1to16}/{%k1}/{z} decorations) "
         "fed through the assembly route. Hook H1 (wrapper around CompleteConsumer.consume_instruction installed from the "
         "harness) records the Instruction objects the parser produced; the invariant decode(stream) == [(addr, mnemonic, "
         "operands or one empty field)] (byte-continuation pseudo instructions removed) is evaluated on every run, i.e. no "
@@ -12,7 +13,7 @@ RULE = ("The C08 workload (random / biased code in ELF64 and ELF32 objects throu
         "for addresses/counts. Non-trivial/distinct = distinct line shapes seen.")
 FLOOR = {"quick": 300, "thorough": 1500}
 ANCHOR_HINTS = ["global_definitions", "consumer", "asm_manual_parser_w_regex"]
-REQUIRED_EVENTS = ["streams_decoded"]
+REQUIRED_EVENTS = ["streams_decoded", "assembled_batches_judged"]
 SHARDS = {"quick": 16, "thorough": 64}
 
 REC = hooks.Recorder()
@@ -35,7 +36,7 @@ def classify_line(raw: str):
     return None
 
 
-def judge_listing(ctx, ws, text, origin):
+def judge_listing(ctx, ws, text, origin, force_history=False):
     p = ws.write("in.s", text)
     REC.clear()
     r = objd.real_stream(ws, p)
@@ -79,6 +80,24 @@ def judge_listing(ctx, ws, text, origin):
             ctx.disagreement({"origin": origin, "listing": text[:100000]},
                              f"perform_matching() twice on one object: the stream of the 2nd call has {str(rt[2]).count('|')} records, the input encodes to {s.count('|')}")
             return
+    # (1c) history: a rule that configures valid_addr_range, or the same matcher object used on another listing, run earlier in
+    #      the process must not change the text a plain rule hands to the matcher for THIS listing (the encoding is a function
+    #      of the instruction list alone)
+    if (force_history or ctx.rng.random() < 0.3) and len(text) < 400000:
+        objd.real_stream(ws, p, rule_text="config:\n  valid_addr_range:\n    min: '0'\n    max: 'ffffffffffffffff'\npattern:\n  - zzzzzz\n")
+        r3 = objd.real_stream(ws, p)
+        other = ws.write("prev.s", "  401000:\t55                   \tpush   %rbp\n  401001:\te8 0a 00 00 00       \tcall   401010 <f>\n  401006:\tc3                   \tret\n")
+        rs = real.match_sequence(ws.write("_stream_rule.yaml", "pattern:\n  - zzzzzz\n"), [other, p], ret="stream")
+        ctx.ran(4)
+        ctx.event("streams_rebuilt_after_other_runs")
+        for what, got in (("after a run of a rule with valid_addr_range", r3[1] if r3[0] == "ok" else None),
+                          ("by a matcher object used on another listing before", rs[1][1] if rs[0] == "ok" else None)):
+            if got != s:
+                n = next((i for i, (a, b) in enumerate(zip((got or "").split("|"), s.split("|"))) if a != b), -1)
+                ctx.disagreement({"origin": origin, "history": True, "listing": text[:100000]},
+                                 f"the stream built {what} differs from the one a fresh run builds: {str(got).count('|')} vs {s.count('|')} records; "
+                                 f"first difference at record {n}: {((got or '').split('|')[n] if n >= 0 and got else got)!r} vs {(s.split('|')[n] if n >= 0 else '')!r}")
+                return
     # (2) hygiene, record by record: decode(encode(inst)) == inst
     ctx.event("streams_decoded")
     by_addr = {}
@@ -124,6 +143,20 @@ def run_shard(ctx):
         for f in objd.fixtures():
             with open(f, encoding="utf-8", errors="replace") as fh:
                 judge_listing(ctx, ws, fh.read(), "fixture:" + os.path.basename(f))
+    from jv import asmgen
+    for _ in range(ctx.share(16, 1200)):
+        # assembled templates: every batch holds prefixed instructions and AVX-512 operands with glued decorations
+        bits = ctx.rng.choice([64, 64, 32])
+        lines = [asmgen.template(ctx.rng, bits) for _ in range(120)] + [asmgen.prefixed(ctx.rng, bits) for _ in range(10)]
+        if bits == 64:
+            lines += [asmgen.decorated(ctx.rng) for _ in range(20)]
+        ctx.rng.shuffle(lines)
+        r = asmgen.assemble(ws, lines, bits)
+        if r is None:
+            ctx.inconc("as refused a template batch")
+        else:
+            ctx.event("assembled_batches_judged")
+            judge_listing(ctx, ws, r[1], f"as{bits}")
     n = ctx.share(160, 12000)
     for k in range(n):
         blob, secs, bits = objd.random_object(ctx.rng)
@@ -137,4 +170,4 @@ def run_shard(ctx):
 
 def replay(ctx, case):
     install()
-    judge_listing(ctx, real.Workspace(), case["listing"], case.get("origin", "replay"))
+    judge_listing(ctx, real.Workspace(), case["listing"], case.get("origin", "replay"), force_history=bool(case.get("history")))
